@@ -104,3 +104,57 @@ pub fn multipart_inputs(_seed: u64) -> impl Iterator<Item = Value> {
     out.push(json!({"files": ["0"]}));
     out.into_iter()
 }
+
+// ------------------------------------------------------------------------------------------------------------------
+// c12_ws: a WebSocket session fed with a script of client messages keeps making progress: after every script the final query is answered
+// within a deadline (a hang is a timeout; a panic is caught by the harness)
+mod ws_case {
+    use async_graphql::*;
+    pub struct Query;
+    #[Object]
+    impl Query { async fn value(&self) -> i32 { 1 } }
+}
+pub fn ws(args: &Value) -> Outcome {
+    use async_graphql::http::{WebSocketProtocols as Protocols, WebSocket, WsMessage};
+    use async_graphql::*;
+    use futures_util::{SinkExt, StreamExt};
+    let proto = if args["protocol"] == "graphql-ws" { Protocols::GraphQLWS } else { Protocols::SubscriptionsTransportWS };
+    let script: Vec<String> = args["messages"].as_array().unwrap().iter().map(|m| m.to_string()).collect();
+    let rt = tokio::runtime::Builder::new_current_thread().enable_all().build().unwrap();
+    let out = rt.block_on(async move {
+        let schema = Schema::new(ws_case::Query, EmptyMutation, EmptySubscription);
+        let (mut tx, rx) = futures_channel::mpsc::unbounded::<String>();
+        let mut stream = WebSocket::new(schema, rx, proto);
+        let mut seen: Vec<String> = Vec::new();
+        for m in script { tx.send(m).await.unwrap(); }
+        // the probe: a query that must be answered (or the connection closed) in time
+        let start = if proto == Protocols::GraphQLWS { "subscribe" } else { "start" };
+        tx.send(format!("{{\"type\":\"{}\",\"id\":\"probe\",\"payload\":{{\"query\":\"{{ value }}\"}}}}", start)).await.unwrap();
+        let deadline = std::time::Duration::from_millis(1500);
+        loop {
+            match tokio::time::timeout(deadline, stream.next()).await {
+                Err(_) => return Err(format!("no progress for {:?} after {:?}", deadline, seen)),
+                Ok(None) => return Ok(format!("closed after {:?}", seen)),
+                Ok(Some(WsMessage::Close(code, _))) => return Ok(format!("close {} after {:?}", code, seen)),
+                Ok(Some(WsMessage::Text(t))) => { let done = t.contains("\"probe\"") && (t.contains("\"data\"") || t.contains("\"next\"") || t.contains("\"error\"")); seen.push(t); if done { return Ok(format!("{:?}", seen)); } }
+            }
+        }
+    });
+    match out { Ok(o) => Outcome { holds: true, observed: o, expected: "the probe query is answered or the connection is closed".into() }, Err(e) => Outcome { holds: false, observed: e, expected: "the probe query is answered or the connection is closed (progress)".into() } }
+}
+pub fn ws_inputs(_seed: u64) -> impl Iterator<Item = Value> {
+    let mut out = Vec::new();
+    for (p, stop) in [("graphql-transport-ws-legacy", "stop"), ("graphql-ws", "complete")] {
+        let init = json!({"type": "connection_init"});
+        let scripts: Vec<Vec<Value>> = vec![
+            vec![init.clone()],
+            vec![init.clone(), json!({"type": stop, "id": "never-started"})],
+            vec![init.clone(), json!({"type": stop, "id": "x"}), json!({"type": stop, "id": "x"})],
+            vec![init.clone(), json!({"type": if p == "graphql-ws" { "subscribe" } else { "start" }, "id": "1", "payload": {"query": "{ value }"}}), json!({"type": stop, "id": "1"}), json!({"type": stop, "id": "1"})],
+            vec![init.clone(), json!({"type": "ping"})],
+            vec![init.clone(), json!({"type": if p == "graphql-ws" { "subscribe" } else { "start" }, "id": "2", "payload": {"query": "{ nope"}})],
+        ];
+        for s in scripts { out.push(json!({"protocol": p, "messages": s})); }
+    }
+    out.into_iter()
+}
